@@ -109,6 +109,30 @@ Proof. intros. unfold rto_tick, rto_tick_common. destruct (s_closed s); auto.
   destruct (rto_mark _ _ _) as [[a c] d].
   repeat match goal with |- context [if ?c then _ else _] => destruct c end; reflexivity. Qed.
 
+Lemma rto_tick_rtoc : forall s, (0 <= s_rtoc s)%Z -> (0 <= s_rtoc (fst (rto_tick s)))%Z.
+Proof. intros s H. unfold rto_tick, rto_tick_common. destruct (s_closed s); auto.
+  destruct (rto_mark _ _ _) as [[a c] d].
+  repeat match goal with |- context [if ?c then _ else _] => destruct c end; cbn; lia. Qed.
+
+Lemma ack_loop_rtoc : forall frames s new rtt, s_rtoc (ack_loop frames s new rtt) = s_rtoc s.
+Proof. induction frames as [|f r IH]; intros. rewrite ack_loop_nil; auto.
+  rewrite ack_loop_cons. destruct (s_ack s <? new); auto. rewrite IH. unfold ack_pop, on_success.
+  destruct (1000 <? _); [destruct (s_cst s)|]; reflexivity. Qed.
+
+Lemma recv_ack_rtoc : forall s a rtt s1 mi sig, recv_ack s a rtt = Ok (s1, mi, sig) -> s_rtoc s1 = s_rtoc s.
+Proof. intros s a rtt s1 mi sig H. unfold recv_ack in H.
+  destruct (100 <? s_dup s)%Z; [discriminate|].
+  match type of H with (if ?c then _ else _) = _ => destruct c end; [discriminate|].
+  match type of H with context [if ?c then on_loss ?x ?y else ?d] => destruct (if c then on_loss x y else d) as [s0 m0] eqn:E end.
+  assert (R0: s_rtoc s0 = s_rtoc s).
+  { match type of E with (if ?c then _ else _) = _ => destruct c end.
+    - unfold on_loss in E. repeat match type of E with context [if ?c then _ else _] => destruct c end; inversion E; reflexivity.
+    - inversion E; reflexivity. }
+  inversion H; subst s1. cbn [s_rtoc set_cc]. rewrite ack_loop_rtoc. exact R0. Qed.
+
+Lemma window_open_rtoc : forall s, s_rtoc (fst (window_open s)) = s_rtoc s.
+Proof. intros. unfold window_open. destruct (s_closed s); auto. destruct (window_fill _ _ _) as [[a c] d]. reflexivity. Qed.
+
 Lemma tick_emits_head : forall s f rest, s_closed s = false -> tick_sends s -> s_frames s = f :: rest ->
   exists e, In e (snd (rto_tick s)) /\ sf_proj (snd e) = sf_proj f.
 Proof.
@@ -133,7 +157,7 @@ Lemma ack_step_progress : forall s w rtt,
   SInv m writes true s -> s_closed s = false -> (s_dup s <= 100)%Z -> s_wsize s < two16 ->
   s_ack s < w -> w <= N.of_nat (List.length all) + 1 ->
   let s' := fst (fst (sstep_m m s (SAck (w mod two32) rtt))) in
-  SInv m writes true s' /\ s_closed s' = false /\ s_dup s' = 0%Z /\ s_wsize s' < two16 /\ s_ack s' = w.
+  SInv m writes true s' /\ s_closed s' = false /\ s_dup s' = 0%Z /\ s_wsize s' < two16 /\ s_ack s' = w /\ s_rtoc s' = s_rtoc s.
 Proof.
   intros s w rtt I C D W Hlt Hle. unfold two31 in small.
   assert (Ew: w mod two32 = w) by (apply N.mod_small; unfold two32; lia).
@@ -146,7 +170,7 @@ Proof.
   destruct (recv_ack s w rtt) as [[[s1 mi] sig]| |] eqn:R.
   - assert (I: SInv m writes true s) by (exists k; auto).
     destruct (recv_ack_inv m m_pos _ _ _ _ _ _ _ _ I R) as (I1 & C1 & A1).
-    pose proof (recv_ack_wsize m m_pos _ _ _ _ _ _ R) as W1.
+    pose proof (recv_ack_wsize m m_pos _ _ _ _ _ _ R) as W1. pose proof (recv_ack_rtoc _ _ _ _ _ _ R) as R1.
     assert (A: s_ack s1 = w).
     { rewrite A1; unfold two16, two32 in *; lia. }
     assert (D1: s_dup s1 = 0%Z).
@@ -158,7 +182,7 @@ Proof.
       destruct (s_frames s); [cbn in Lf; lia|discriminate]. }
     destruct sig.
     + pose proof (window_open_inv _ _ _ _ I1) as (I2 & A2 & C2).
-      pose proof (window_open_dup s1) as D2. pose proof (window_open_wsize s1) as W2.
+      pose proof (window_open_dup s1) as D2. pose proof (window_open_wsize s1) as W2. pose proof (window_open_rtoc s1) as R2.
       destruct (window_open s1) as [s2 em2]. cbn [fst] in *.
       repeat split; auto; congruence.
     + cbn [fst]. repeat split; auto; congruence.
@@ -182,7 +206,8 @@ Record Linked (out : bytes) (y : sys) : Prop := {
   lk_wsize : s_wsize (y_snd y) < two16;
   lk_rinv : Inv chunks (y_rcv y) out;
   lk_settled : settled (y_rcv y);
-  lk_ack : s_ack (y_snd y) <= r_ws (y_rcv y)
+  lk_ack : s_ack (y_snd y) <= r_ws (y_rcv y);
+  lk_rtoc : (0 <= s_rtoc (y_snd y))%Z
 }.
 
 Lemma head_index : forall s f rest k, map sf_proj (s_frames s) = skipn k all -> s_frames s = f :: rest ->
@@ -220,7 +245,7 @@ Lemma round_progress : forall out y y', Linked out y -> round m all y y' ->
   Linked out y' /\ (List.length (s_frames (y_snd y')) < List.length (s_frames (y_snd y)))%nat.
 Proof.
   intros out y y' L R. inversion R as [s r arrivals rtt Hne Ht Hdel Hstream s1 r' s' E1 E2]; subst y y'. clear R.
-  destruct L as [LI LC LD LW LR LS LA]. cbn [y_snd y_rcv] in *.
+  destruct L as [LI LC LD LW LR LS LA LT]. cbn [y_snd y_rcv] in *.
   pose proof all_length as AL. unfold two31 in small.
   (* tick *)
   destruct (rto_tick_inv _ _ _ _ LI) as (I1 & A1 & C1). fold s1 in I1, A1, C1.
@@ -243,7 +268,8 @@ Proof.
   assert (Lf: List.length (f :: rest) = (List.length all - k)%nat).
   { rewrite <- (map_length sf_proj (f :: rest)), K3, skipn_length. reflexivity. }
   assert (I: SInv m writes true s1) by exact I1.
-  destruct (ack_step_progress s1 (r_ws r') rtt I1) as (I2 & C2 & D2 & W2 & A2); try congruence; try lia.
+  destruct (ack_step_progress s1 (r_ws r') rtt I1) as (I2 & C2 & D2 & W2 & A2 & T2); try congruence; try lia.
+  pose proof (rto_tick_rtoc s LT) as T1. fold s1 in T1.
   subst s'. rewrite (inv_ack _ _ _ RI).
   set (s' := fst (fst (sstep_m m s1 (SAck (r_ws r' mod two32) rtt)))) in *.
   split.
@@ -256,7 +282,7 @@ Qed.
 
 Lemma linked_complete : forall out y, Linked out y -> s_frames (y_snd y) = [] -> complete writes out y.
 Proof.
-  intros out y [LI LC LD LW LR LS LA] F. pose proof all_length as AL. unfold two31 in small.
+  intros out y [LI LC LD LW LR LS LA LT] F. pose proof all_length as AL. unfold two31 in small.
   destruct LI as (k & K1 & K2 & K3 & K4 & K5). rewrite F in K3. cbn [map] in K3.
   assert (k = List.length all).
   { assert (H: List.length (skipn k all) = O) by (apply (f_equal (@List.length wire)) in K3; cbn [List.length] in K3; symmetry; exact K3).
@@ -291,7 +317,7 @@ Qed.
 Lemma round_enabled : forall out y (rtt : N), Linked out y -> s_frames (y_snd y) <> [] -> tick_sends (y_snd y) ->
   exists y', round m all y y'.
 Proof.
-  intros out [s r] rtt [LI LC LD LW LR LS LA] Hne Ht. cbn [y_snd y_rcv] in *.
+  intros out [s r] rtt [LI LC LD LW LR LS LA LT] Hne Ht. cbn [y_snd y_rcv] in *.
   eexists. apply (round_intro m all s r (map (fun e : emit => sf_proj (snd e)) (snd (rto_tick s))) rtt); auto.
   - intros e He. apply in_map_iff. exists e. auto.
   - intros x Hx. apply in_map_iff in Hx. destruct Hx as (e & E1 & E2). subst x.
@@ -306,15 +332,16 @@ Qed.
 (* ---- the link invariant survives everything a lossy network can do *)
 Lemma lossy_linked : forall out y y', Linked out y -> lossy m all y y' -> Linked out y'.
 Proof.
-  intros out y y' [LI LC LD LW LR LS LA] H. inversion H; subst; cbn [y_snd y_rcv] in *.
+  intros out y y' [LI LC LD LW LR LS LA LT] H. inversion H; subst; cbn [y_snd y_rcv] in *.
   - destruct (rto_tick_inv _ _ _ _ LI) as (I1 & A1 & C1).
     constructor; cbn [y_snd y_rcv]; auto; try congruence.
     + rewrite rto_tick_dup. auto.
     + apply (rto_tick_wsize m m_pos); auto.
+    + apply rto_tick_rtoc; auto.
   - destruct (deliver_frames_inv xs r out LR LS H0) as (RI & RS & RM & _).
     constructor; cbn [y_snd y_rcv]; auto. lia.
   - pose proof (inv_ws_hi _ _ _ LR) as Hhi. pose proof all_length as AL. unfold nchunks in Hhi.
-    destruct (ack_step_progress s w rtt LI LC LD LW H0) as (I2 & C2 & D2 & W2 & A2). lia.
+    destruct (ack_step_progress s w rtt LI LC LD LW H0) as (I2 & C2 & D2 & W2 & A2 & T2). lia.
     constructor; cbn [y_snd y_rcv]; auto; lia.
 Qed.
 
@@ -322,20 +349,21 @@ Lemma lossy_star_linked : forall out y y', lossy_star m all y y' -> Linked out y
 Proof. induction 1; intros L; auto. apply IHlossy_star. eapply lossy_linked; eauto. Qed.
 
 (* ---- the canonical start state is linked *)
-Definition fresh (s : sender) : Prop := s_closed s = false /\ s_dup s = 0%Z /\ s_wsize s < two16 /\ s_ack s = 1.
+Definition fresh (s : sender) : Prop := s_closed s = false /\ s_dup s = 0%Z /\ s_wsize s < two16 /\ s_ack s = 1 /\ s_rtoc s = 0%Z.
 
 Lemma write_step_fresh : forall w0 s b, SInv m w0 false s -> fresh s ->
   SInv m (w0 ++ [b]) false (fst (fst (sstep_m m s (SWrite b)))) /\ fresh (fst (fst (sstep_m m s (SWrite b)))).
 Proof.
-  intros w0 s b I (C & D & W & A). cbn [sstep_m].
+  intros w0 s b I (C & D & W & A & T). cbn [sstep_m].
   destruct (write_m m s b) as [[s1 sig]| |] eqn:Hw.
   - destruct (write_inv m m_pos _ _ _ _ _ _ I Hw) as (I1 & A1 & _ & C1).
     pose proof (write_wsize m _ _ _ _ Hw) as W1.
-    assert (D1: s_dup s1 = s_dup s).
-    { unfold write_m in Hw. destruct (_ || _); inversion Hw; reflexivity. }
+    assert (D1: s_dup s1 = s_dup s /\ s_rtoc s1 = s_rtoc s).
+    { unfold write_m in Hw. destruct (_ || _); inversion Hw; split; reflexivity. }
+    destruct D1 as [D1 T1].
     destruct sig.
     + pose proof (window_open_inv _ _ _ _ I1) as (I2 & A2 & C2).
-      pose proof (window_open_dup s1) as D2. pose proof (window_open_wsize s1) as W2.
+      pose proof (window_open_dup s1) as D2. pose proof (window_open_wsize s1) as W2. pose proof (window_open_rtoc s1) as T2.
       destruct (window_open s1) as [s2 em]. cbn [fst] in *. split; auto. unfold fresh. repeat split; congruence.
     + cbn [fst]. split; auto. unfold fresh. repeat split; congruence.
   - exfalso. destruct I as (k & _ & _ & _ & _ & F). unfold write_m in Hw. rewrite F, C in Hw. discriminate.
@@ -361,18 +389,20 @@ Qed.
 Lemma start_linked : Linked [] (start m writes).
 Proof.
   unfold start. rewrite srun_app.
-  destruct (writes_run_fresh writes [] sender_new (sinv_init m)) as (I & (C & D & W & A)).
+  destruct (writes_run_fresh writes [] sender_new (sinv_init m)) as (I & (C & D & W & A & T)).
   { unfold fresh. cbn. repeat split; auto. }
   cbn [app] in I. set (s := fst (srun_m m sender_new (map SWrite writes))) in *.
   cbn [srun_m sstep_m]. rewrite C.
   destruct (send_fin s) as [[s1 em]| |] eqn:Hf.
   - destruct (send_fin_inv m m_pos _ _ _ _ _ I Hf) as (I1 & A1 & C1). pose proof (send_fin_wsize _ _ _ Hf) as W1.
-    assert (D1: s_dup s1 = s_dup s) by (unfold send_fin in Hf; destruct (s_fin_sent s); inversion Hf; reflexivity).
+    assert (D1: s_dup s1 = s_dup s /\ s_rtoc s1 = s_rtoc s) by (unfold send_fin in Hf; destruct (s_fin_sent s); inversion Hf; split; reflexivity).
+    destruct D1 as [D1 T1].
     cbn [fst]. constructor; cbn [y_snd y_rcv]; auto; try congruence.
     + rewrite D1, D. lia.
     + apply inv_init. apply n_small.
     + split; cbn; auto.
     + rewrite A1, A. cbn. lia.
+    + rewrite T1, T. lia.
   - exfalso. destruct I as (k & _ & _ & _ & _ & F). unfold send_fin in Hf. rewrite F in Hf. discriminate.
   - exfalso. unfold send_fin in Hf. destruct (s_fin_sent s); discriminate.
 Qed.
@@ -393,7 +423,7 @@ Theorem liveness_from_start : forall y0 k yk,
   lossy_star m all (start m writes) y0 -> rounds m all k y0 yk ->
   (k <= List.length all)%nat /\
   (s_frames (y_snd yk) = [] -> complete writes [] yk) /\
-  (s_frames (y_snd yk) <> [] -> tick_sends (y_snd yk) -> exists y', round m all yk y').
+  (s_frames (y_snd yk) <> [] -> 1 <= s_wsize (y_snd yk) -> exists y', round m all yk y').
 Proof.
   intros y0 k yk Hl Hr. pose proof (lossy_star_linked [] _ _ Hl start_linked) as L.
   destruct (rounds_bounded k [] y0 yk L Hr) as (Lk & B).
@@ -404,7 +434,8 @@ Proof.
     rewrite E in B. apply Nat.le_trans with (List.length all - k0)%nat; [|apply Nat.le_sub_l].
     apply Nat.le_trans with (List.length (s_frames (y_snd yk)) + k)%nat; [apply Nat.le_add_l|exact B].
   - apply linked_complete; auto.
-  - intros Hne Ht. apply (round_enabled [] yk 0 Lk Hne Ht).
+  - intros Hne Hw. apply (round_enabled [] yk 0 Lk Hne).
+    apply tick_sends_when_window_open; auto. apply (lk_rtoc _ _ Lk).
 Qed.
 End Link.
 
